@@ -155,7 +155,7 @@ P('C06', claimed=True, level='other',
               'contract). Trusted: struct.pack ranges/lengths, str.encode length facts.'))
 
 P('C07', claimed=True, level='other',
-  contracts=['base_oscinterface', 'base_main', 'base_oscbuild'], drivers=['vf.drivers.C07'],
+  contracts=['base_oscinterface', 'base_main', 'base_oscbuild', 'base_taskq'], drivers=['vf.drivers.C07'],
   level_text=('Time-tag arithmetic is proved on the real functions: RT bundles carry '
               'elapsed_time_to_osc(send_time + latency) or IMMEDIATELY for None/negative latency, NRT '
               'bundles are relative inside routines and absolute outside, nested bundles may not '
